@@ -1334,7 +1334,7 @@ class QueryBuilder(Selectable, Term):  # type:ignore[misc]
         join.validate(base_tables, self._joins)  # type:ignore[arg-type]
 
         table_in_query = any(
-            isinstance(clause, Table) and join.item in base_tables for clause in base_tables
+            isinstance(clause, Table) and clause == join.item for clause in base_tables
         )
         if isinstance(join.item, Table) and join.item.alias is None and table_in_query:
             # On the odd chance that we join the same table as the FROM table and don't set an alias
